@@ -13,7 +13,7 @@ package handlers
 //@   requires nonnil: Teamserver != nil && Header.Data != nil && logr.LogrInstance != nil
 //@   modifies *
 //@   loop "for Header.Data.CanIRead(([]parser.ReadType{parser.ReadInt32, parser.ReadInt32}))"
-//@     invariant wf: agent.wfAgent(Agent) && Header.Data != nil
+//@     invariant wf: Agent != nil && Header.Data != nil
 
 //@ func handleServiceAgent(Teamserver agent.TeamServer, Header agent.Header, ExternalIP string) (r bytes.Buffer, ok bool)
 //@   requires nonnil: Teamserver != nil && Header.Data != nil && logr.LogrInstance != nil
